@@ -35,6 +35,11 @@ def shadowing_ruleset(rng):
                       'trail': ('alt', ('chr', a), ('chr', b)), 'dollar': False})
     for r in extra:
         rs.rules.insert(rng.randrange(len(rs.rules) + 1), r)
+    if rng.random() < 0.4:
+        # '|' actions ("same action as the next rule"): flex corrects the recorded line of such a rule, because the
+        # newline that ends it has been counted already - the warnings must still name the right rule
+        for i in rng.sample(range(len(rs.rules) - 1), min(len(rs.rules) - 1, rng.choice([1, 1, 2, 3]))):
+            rs.rules[i]['chain'] = True
     if rng.random() < 0.25:
         # exhaustive rule set: the default rule becomes unreachable (matters with -s)
         rs.rules.append({'scs': [], 'all': True, 'bol': False, 'head': ('cls', ('br', False, [('r', 0, rs.csize - 1)])), 'trail': None, 'dollar': False})
